@@ -642,12 +642,13 @@ func checkC11Reconn(ix *index, add addFn) {
 			feat := map[string]string{"call": "reconnect.Disconnect"}
 			if op.CtxTimeoutUs > 0 {
 				dl := invT + op.CtxTimeoutUs*1000
-				if o.ret < 0 || ix.tr[o.ret].T > dl {
+				if o.ret < 0 || o.ret >= ix.end() || ix.tr[o.ret].T > dl {
 					add("returns", "reconnecting Disconnect did not return by its context's deadline", feat)
 				}
-			} else if o.ret < 0 && ix.judge >= 0 {
-				add("returns", "reconnecting Disconnect had not returned when the run was judged", feat)
 			}
+			// without a deadline nothing is demanded here: Disconnect's context is
+			// alive and whether the loop can observe the request in its current
+			// phase is C09's disconnect-returns rule
 		}
 	}
 }
